@@ -6,7 +6,7 @@ ls /verif/preserving/*.diff > /dev/shm/pres_list.txt
 run_slot() {
   s=$1
   awk -v s=$s -v n=$SLOTS 'NR % n == s % n' /dev/shm/pres_list.txt | while read p; do
-    R=$(ISO_SIM=head /verif/tools/iso.sh pres$s "$p" $TIER C02 C04 C05 C06 C07 C08 C09 C10 C11 C15 C18 C19 C20 2>&1)
+    R=$(VERIF_THREADS=${VERIF_THREADS:-5} ISO_SIM=head /verif/tools/iso.sh pres$s "$p" $TIER C02 C04 C05 C06 C07 C08 C09 C10 C11 C15 C18 C19 C20 2>&1)
     BAD=$(echo "$R" | grep -v "exit=0")
     if [ -n "$BAD" ]; then echo "$(basename $p): FALSE ALARM / ERROR"; echo "$BAD" | cut -c1-300; else echo "$(basename $p): all 13 checks exit 0"; fi
   done
